@@ -91,6 +91,31 @@ func NewLexPart(header, imports, prodList interface{}) (*LexPart, error) {
 	return lexPart, nil
 }
 
+// CheckRegDefs returns an error for the first use of a regular definition
+// that is not defined anywhere in the lexical part.
+func (this *LexPart) CheckRegDefs() error {
+	chk := &regDefChecker{lexPart: this}
+	for _, p := range this.ProdList.Productions {
+		p.LexPattern().Walk(chk)
+	}
+	return chk.err
+}
+
+// regDefChecker reports the first use of a regular definition that is not defined.
+type regDefChecker struct {
+	lexPart *LexPart
+	err     error
+}
+
+func (c *regDefChecker) Visit(n LexNode) LexNodeVisitor {
+	if id, ok := n.(*LexRegDefId); ok && c.err == nil {
+		if _, exist := c.lexPart.RegDefs[id.Id]; !exist {
+			c.err = fmt.Errorf("undefined regular definition: %s", id.Id)
+		}
+	}
+	return c
+}
+
 func (this *LexPart) StringLitTokDef(id string) *LexTokDef {
 	tokDef := this.stringLitToks[id]
 	return tokDef
